@@ -14,6 +14,7 @@ import ast
 
 import sympy as sp
 
+from ..consteval import Undecidable
 from ..index import AnalysisError, Index, const_str_set, full, norm, own_nodes
 from ..report import Report
 from . import C05, C12
@@ -39,6 +40,8 @@ def run(idx: Index, rep: Report, tier: str):
     C05.check_deleted_qubits(idx, rep)
     C12.check_reordering(idx, rep)
     check_single_reordering(idx, rep)
+    check_combinatorial_basis(idx, rep)
+    check_hcb_table(idx, rep)
 
 
 def check_dispatch(idx: Index, rep: Report):
@@ -125,3 +128,180 @@ def check_single_reordering(idx: Index, rep: Report):
     ro = [n for n in own_nodes(s.node) if isinstance(n, ast.If) and norm(n.test) == "not up_then_down" and "reorder(fermion_operator, up_then_down_order" in full(n)]
     rep.decide(bool(ro), rule, s, ro[0] if ro else s.node, text="scBK re-orders only when the input is still interleaved",
                what="the symmetry-conserving encoder needs all-up-then-all-down and re-orders iff the caller has not already done so", reason="conditional re-ordering changed")
+
+
+# ---------------------------------------------------------------------------------------------------
+COMBI = "tangelo/toolboxes/qubit_mappings/combinatorial.py"
+HCB = "tangelo/toolboxes/qubit_mappings/hcb.py"
+
+
+def check_combinatorial_basis(idx: Index, rep: Report):
+    """The combinatorial encoding writes the Hamiltonian in a basis labelled by integers.  The labelling part of `combinatorial` (everything
+    before the matrix is allocated) is folded for every (orbitals, n_alpha, n_beta) up to 5 orbitals: the labels must be pairwise distinct,
+    lie inside the 2^n register the function computes, and cover exactly the configurations with n_alpha alpha and n_beta beta electrons -
+    otherwise two configurations share a row (wrong spectrum) or a label falls outside the matrix."""
+    rule = "K9.combinatorial-basis"
+    import itertools
+    from ..consteval import Opaque, Raised, Undecidable
+    from ..rules.circuitsem import make_folder
+    f = idx.function(f"{COMBI}::combinatorial")
+
+    def stop(st):
+        return isinstance(st, ast.Assign) and any("quop_matrix" in norm(t) for t in st.targets)
+    if not any(stop(st) for st in f.node.body):
+        raise AnalysisError("combinatorial: allocation of the operator matrix not found")
+    n_cases = 0
+    for m in range(1, 6):
+        for na in range(0, m + 1):
+            for nb in range(0, m + 1):
+                if na == 0 and nb == 0:
+                    continue
+                fo = make_folder(idx, COMBI)
+                fo.env["chemist_ordered"] = Opaque("chemist_ordered")
+                try:
+                    env = fo.run_prefix(f.node, {"ferm_op": Opaque("ferm_op"), "n_modes": m, "n_electrons": (na, nb)}, stop)
+                except Undecidable as e:
+                    raise AnalysisError(f"combinatorial: basis construction not foldable for ({m}, ({na}, {nb})): {e}")
+                except Raised as e:
+                    rep.violation(rule, f, f.node, text=f"{m} orbitals, ({na}, {nb}) electrons", what="the basis labelling is defined for every electron pair", reason=f"raises {e.exc_type}")
+                    continue
+                bs, nq = env.get("basis_set"), env.get("n")
+                if not isinstance(bs, dict) or not isinstance(nq, int):
+                    raise AnalysisError("combinatorial: basis_set / n not found after folding the labelling part")
+                want = {tuple(sorted([2 * a for a in ca] + [2 * b + 1 for b in cb])) for ca in itertools.combinations(range(m), na) for cb in itertools.combinations(range(m), nb)}
+                labels = list(bs.values())
+                bad = []
+                if set(bs.keys()) != want:
+                    bad.append(f"{len(set(bs.keys()) ^ want)} configuration(s) missing or spurious")
+                if len(set(labels)) != len(labels):
+                    bad.append(f"{len(labels) - len(set(labels))} configuration(s) share a label")
+                if labels and (min(labels) < 0 or max(labels) >= 2 ** nq):
+                    bad.append(f"labels reach {max(labels)} but the register has 2^{nq} = {2 ** nq} rows")
+                n_cases += 1
+                rep.decide(not bad, rule, f, f.node, text=f"{m} orbitals, ({na}, {nb}) electrons: {len(labels)} configurations on {nq} qubits",
+                           what="every configuration of the sector gets its own row inside the register", reason="; ".join(bad))
+    rep.floor("combinatorial basis labellings folded", n_cases, 80)
+
+
+class _SymTensor:
+    """stand-in for a numpy tensor of coefficients: element [i, j, ...] is the symbol name_ij.. times a scalar factor"""
+    _sa_model = True
+
+    def __init__(self, name, rank, dim, factor=1):
+        self.name, self.rank, self.dim, self.factor = name, rank, dim, factor
+        self.shape = (dim,) * rank
+
+    def __getitem__(self, k):
+        k = k if isinstance(k, tuple) else (k,)
+        if len(k) != self.rank or not all(isinstance(x, int) and 0 <= x < self.dim for x in k):
+            raise Undecidable(f"tensor index {k}")
+        return self.factor * sp.Symbol(f"{self.name}_{''.join(map(str, k))}")
+
+    def __mul__(self, c):
+        return _SymTensor(self.name, self.rank, self.dim, self.factor * c)
+    __rmul__ = __imul__ = __mul__
+
+
+class _BosOp:
+    """stand-in for openfermion's BosonOperator: terms keyed by ((mode, 1|0), ...) parsed from 'i^ j' strings"""
+    _sa_model = True
+
+    def __init__(self, term=None, coefficient=1):
+        self.terms = {}
+        if term is not None:
+            if isinstance(term, str):
+                key = tuple((int(t.rstrip("^")), 1 if t.endswith("^") else 0) for t in term.split())
+            else:
+                key = tuple(term)
+            self.terms[key] = coefficient
+
+    def __add__(self, o):
+        r = _BosOp()
+        r.terms = dict(self.terms)
+        for k, v in o.terms.items():
+            r.terms[k] = r.terms.get(k, 0) + v
+        return r
+    __iadd__ = __add__
+
+
+def check_hcb_table(idx: Index, rep: Report):
+    """hard_core_boson_operator folded on symbolic integral tensors h (one-body) and T (two-body, as get_coeffs returns it; the code doubles it).
+    Reference, derived for H = c + sum h_pq a+_ps a_qs + sum T_pqrs a+_ps a+_qt a_rt a_ss restricted to the paired (seniority-zero) space,
+    with b+_i = a+_ia a+_ib and no symmetry assumed beyond hermiticity:
+        b+_i b_i            : 2 h_ii + 2 T_iiii
+        b+_i b_j   (i != j) : 2 T_iijj                       (pair hopping)
+        b+_i b_i b+_j b_j   : 2 (2 T_ijji) - 2 T_ijij         (direct minus same-spin exchange; T_iijj is a different integral unless the
+                                                              orbitals are real - the 8-fold symmetry must not be assumed)"""
+    rule = "K9.hcb-table"
+    from ..consteval import Raised, Undecidable
+    from ..rules.circuitsem import make_folder
+    f = idx.function(f"{HCB}::hard_core_boson_operator")
+    _validate_hcb_reference()
+    for n_mos in (2, 3):
+        c = sp.Symbol("c")
+
+        class _Ferm:
+            _sa_model = True
+
+            def get_coeffs(self, spatial=False):
+                if not spatial:
+                    raise Undecidable("get_coeffs(spatial=False)")
+                return c, _SymTensor("h", 2, n_mos), _SymTensor("T", 4, n_mos)
+        fo = make_folder(idx, HCB, ctors={"BosonOperator": lambda a, k: _BosOp(*a, **k)})
+        try:
+            got = fo.run_function(f.node, {"ferm_op": _Ferm()})
+        except (Undecidable, Raised) as e:
+            raise AnalysisError(f"hard_core_boson_operator not foldable: {e}")
+        h = lambda i, j: sp.Symbol(f"h_{i}{j}")
+        T = lambda i, j, k, l: sp.Symbol(f"T_{i}{j}{k}{l}")
+        want = {(): c}
+        for i in range(n_mos):
+            want[((i, 1), (i, 0))] = 2 * h(i, i) + 2 * T(i, i, i, i)
+            for j in range(n_mos):
+                if i != j:
+                    want[((i, 1), (j, 0))] = 2 * T(i, i, j, j)
+                    want[((i, 1), (i, 0), (j, 1), (j, 0))] = 4 * T(i, j, j, i) - 2 * T(i, j, i, j)
+        gt = got.terms if isinstance(got, _BosOp) else {}
+        bad = [k for k in set(gt) | set(want) if sp.simplify(sp.nsimplify(gt.get(k, 0)) - want.get(k, 0)) != 0]
+        rep.decide(not bad, rule, f, f.node, text=f"paired-space Hamiltonian on {n_mos} orbitals: {len(want)} boson terms",
+                   what="the boson operator is the fermionic Hamiltonian restricted to the paired space for any Hermitian number- and spin-conserving input "
+                        "(pair energy 2h+g_iiii, pair hopping g_iijj, pair-pair coupling 2 g_ijji - g_ijij), without assuming real-orbital symmetry",
+                   reason=f"term {bad[0] if bad else ''}: coefficient {gt.get(bad[0], 0) if bad else ''}, expected {want.get(bad[0], 0) if bad else ''}")
+
+
+def _validate_hcb_reference():
+    """the reference table above, re-derived on every run with exact integer Fock matrices (two orbitals, integer h and T with hermiticity and
+    particle-exchange symmetry only): matrix elements of the fermionic Hamiltonian between paired states against the table"""
+    import itertools
+    import random
+    import numpy as np
+    from ..rules import fock
+    n = 4
+    for seed in (3, 11, 29):
+        rnd = random.Random(seed)
+        h = {}
+        for i in range(2):
+            for j in range(i, 2):
+                h[i, j] = h[j, i] = rnd.randint(-5, 5)
+        raw = {k: rnd.randint(-5, 5) for k in itertools.product(range(2), repeat=4)}
+        T = {(p, q, r, s): raw[p, q, r, s] + raw[s, r, q, p] + raw[q, p, s, r] + raw[r, s, p, q] for (p, q, r, s) in raw}
+        H = np.zeros((16, 16), dtype=object)
+        for p in range(2):
+            for q in range(2):
+                for sg in range(2):
+                    H = H + h[p, q] * fock.term_matrix(((2 * p + sg, 1), (2 * q + sg, 0)), n)
+        for (p, q, r, s), v in T.items():
+            for sg in range(2):
+                for tu in range(2):
+                    H = H + v * fock.term_matrix(((2 * p + sg, 1), (2 * q + tu, 1), (2 * r + tu, 0), (2 * s + sg, 0)), n)
+        vac = np.zeros(16, dtype=object)
+        vac[0] = 1
+        pair = lambda i: fock.term_matrix(((2 * i, 1), (2 * i + 1, 1)), n)
+        st = {(0,): pair(0).dot(vac), (1,): pair(1).dot(vac), (0, 1): pair(0).dot(pair(1).dot(vac))}
+        me = lambda a, b: st[a].dot(H.dot(st[b])) / st[a].dot(st[a])
+        diag = lambda i: 2 * h[i, i] + 2 * T[i, i, i, i]
+        nn = lambda i, j: 4 * T[i, j, j, i] - 2 * T[i, j, i, j]
+        ok = me((0,), (0,)) == diag(0) and me((1,), (1,)) == diag(1) and me((0,), (1,)) == 2 * T[0, 0, 1, 1] and me((1,), (0,)) == 2 * T[1, 1, 0, 0] and \
+            me((0, 1), (0, 1)) == diag(0) + diag(1) + nn(0, 1) + nn(1, 0)
+        if not ok:
+            raise AnalysisError("hard-core-boson reference table disagrees with the exact paired-space matrix elements (checker defect)")
